@@ -126,3 +126,52 @@ Proof.
   - apply (path_reach state enc enc_inj init (next false)); [constructor|]. vm_compute in E. inversion E; subst p. vm_compute. reflexivity.
   - vm_compute in E. inversion E; subst p. vm_compute. auto.
 Qed.
+
+(** ** cancellation (C11): once the caller has cancelled a running Execve (the kill is sent and the
+    host waits for the result), host and container steps alone bring the call back within a bounded
+    number of steps — whatever the program does, and whether or not it had already ended *)
+Definition sys_steps (s : state) : list state := host_steps s ++ cont_steps true s.
+Definition cancel_busy (s : state) : bool := Nat.eqb (hst_num (s_host s)) 6 && negb (s_lost s).
+
+Definition rank_tab_step (T : PositiveMap.t nat) : PositiveMap.t nat :=
+  fold_left (fun acc kv =>
+    let s := snd kv in
+    if cancel_busy s then
+      PositiveMap.add (enc s)
+        (S (fold_left (fun m s' => if cancel_busy s' then Nat.max m (match PositiveMap.find (enc s') T with Some r => r | None => 0 end) else m)
+                      (sys_steps s) 0)) acc
+    else acc) (PositiveMap.elements V) T.
+
+Fixpoint rank_tab_iter (n : nat) (T : PositiveMap.t nat) : PositiveMap.t nat :=
+  match n with O => T | S m => rank_tab_iter m (rank_tab_step T) end.
+
+Definition cancel_rank_tab := Eval vm_compute in rank_tab_iter 12 (PositiveMap.empty nat).
+Definition cancel_rank (s : state) : nat := match PositiveMap.find (enc s) cancel_rank_tab with Some r => r | None => 0 end.
+
+Lemma cancel_rank_ok : rank_ok state enc sys_steps cancel_busy cancel_rank V = true.
+Proof. vm_compute. reflexivity. Qed.
+
+Definition cancel_bound := Eval vm_compute in PositiveMap.fold (fun _ r m => Nat.max r m) cancel_rank_tab 0.
+
+Lemma cancel_rank_le s : cancel_rank s <= cancel_bound.
+Proof.
+  unfold cancel_rank. destruct (PositiveMap.find (enc s) cancel_rank_tab) as [r|] eqn:E; [|apply Nat.le_0_l].
+  assert (forallb (fun kv => Nat.leb (snd kv) cancel_bound) (PositiveMap.elements cancel_rank_tab) = true) as H by (vm_compute; reflexivity).
+  rewrite forallb_forall in H. apply PositiveMap.find_2, PositiveMap.elements_1, SetoidList.InA_alt in E.
+  destruct E as [[k v] [[Hk Hv] Hin]]. cbv [PositiveMap.eq_key_elt PositiveMap.E.eq fst snd] in Hk, Hv; simpl in Hk, Hv. subst.
+  specialize (H _ Hin). simpl in H. apply Nat.leb_le in H. exact H.
+Qed.
+
+Theorem cancel_returns_container s : R s -> s_host s = HECancelWait -> s_lost s = false ->
+  sys_steps s <> [] /\
+  forall p, busy_path state sys_steps cancel_busy s p -> Forall (fun t => cancel_busy t = true) p -> length p <= cancel_bound.
+Proof.
+  intros Hr Hh Hl.
+  pose proof V_ok as H. apply andb_true_iff in H. destruct H as [H _]. apply andb_true_iff in H. destruct H as [H1 H2].
+  pose proof (reach_in state enc enc_inj init (next true) V H1 H2 s Hr) as Hm.
+  assert (cancel_busy s = true) as Hb by (unfold cancel_busy; rewrite Hh, Hl; reflexivity).
+  split.
+  - exact (busy_has_step state enc enc_inj sys_steps cancel_busy cancel_rank V H1 cancel_rank_ok s Hm Hb).
+  - intros p Hp Hall. pose proof (rank_bound state enc enc_inj sys_steps cancel_busy cancel_rank V H1 cancel_rank_ok p s Hm Hb Hp Hall) as Hlen.
+    pose proof (cancel_rank_le s). eapply Nat.le_trans; eassumption.
+Qed.
